@@ -326,4 +326,10 @@ MUTANTS = [
          replace='return cls(*(Response.from_json(item, error_cls=error_cls) for item in json_data), strict=False)', expect='RELATE-STRICT'),
     dict(name='null-id-response-rejected-always', file='pjrpc/client/client.py', find='if self.strict and response.id is not None and response.id != request.id:',
          replace='if self.strict and response.id != request.id:', expect='RELATE-STRICT'),
+    dict(name='validator-only-for-success', file='pjrpc/client/client.py', nth=1, find='            validator(request, response)\n',
+         replace='            if response.is_success:\n                validator(request, response)\n', expect='RELATE-STRICT'),
+    dict(name='bare-object-wrapped-into-array', file='pjrpc/common/v20.py',
+         find='            if not isinstance(json_data, (list, tuple)):\n                raise DeserializationError("data must be of type list")',
+         replace='            if isinstance(json_data, dict):\n                json_data = [json_data]\n            if not isinstance(json_data, (list, tuple)):\n                raise DeserializationError("data must be of type list")',
+         expect='CONTAINER-GUARD'),
 ]
